@@ -520,9 +520,20 @@ def eval_hwe(case, reply):
 
 
 def check_hwes(cases):
-    reqs = ['hwe {} {} {}'.format(*c['counts']) for c in cases]
+    # all requests of a shard go to ONE JVM, as all calls of a query do in the engine: each judged call is preceded by a related
+    # call (same sample count, its minor-allele count equal to this call's heterozygote count -- or the mirrored table), so that a
+    # result must not depend on what the JVM computed just before
+    reqs = []
+    for k, c in enumerate(cases):
+        r, h, v = c['counts']
+        if min(r, h, v) >= 0:
+            prime = (r + v, h, 0) if k % 2 == 0 else (v, h, r)
+        else:
+            prime = (1, 1, 1)
+        reqs.append('hwe {} {} {}'.format(*prime))
+        reqs.append('hwe {} {} {}'.format(r, h, v))
     rs = jvm().ask_chunked(reqs, 1000)
-    return [eval_hwe(c, r) for c, r in zip(cases, rs)]
+    return [eval_hwe(c, rs[2 * k + 1]) for k, c in enumerate(cases)]
 
 
 def check_misc():
